@@ -1563,6 +1563,9 @@ class LangServer:
         present_conf_files = [
             os.path.isfile(os.path.join(self.root_path, f)) for f in default_conf_files
         ]
+        if not present_conf_files[0] and self.config != ".fortlsrc":
+            # An explicitly requested configuration file is missing
+            self.post_message(f"Configuration file '{self.config}' not found")
         if not any(present_conf_files):
             return None
 
